@@ -241,9 +241,15 @@ class StmtMixin:
         for k in set(aheap) | set(bheap):
             va, vb = aheap.get(k), bheap.get(k)
             if va is None or vb is None:
-                # created lazily on one side only: it is the entry value on both
-                heap[k] = va if va is not None else vb
-                continue
+                # materialised on one side only: the other side still has the value from before the `if`
+                # (or the entry-state constant if it had never been touched)
+                prev = base[0][1].get(k)
+                if prev is None:
+                    self.st.heap = {}
+                    self.materialise(k)
+                    prev = self.st.heap[k]
+                va = prev if va is None else va
+                vb = prev if vb is None else vb
             if isinstance(va, SV):
                 heap[k] = va if va.t.eq(vb.t) else Ite(SV(c, TBool), va, vb)
             else:
